@@ -303,7 +303,7 @@ Upd(g, o, ln, o2) ==
                !.pruned = LET left == { p \in AllTracked(o) : p \notin AllTracked(o2) /\ p \notin g.reaped
                                           /\ \/ (p \in 1..Len(g.lastStatus) /\ g.lastStatus[p] \in {"zombie", "gone"})
                                              \/ p \in g.killed }     \* (surplus / expired worker popped after its kill)
-                          IN (@ \cup left) \ (IF isEv /\ ln.x = "reap" THEN {ln.p} ELSE {}),
+                          IN ((@ \cup left) \ g.detached) \ (IF isEv /\ ln.x = "reap" THEN {ln.p} ELSE {}),
                !.detached = IF ln.k = "hook" /\ ln.x = "after_spawn" /\ ~Effective(g, ln.w, "after_spawn", ln.r)
                             THEN @ \cup {ln.p} ELSE @,
                !.vetoRaise = IF ln.k = "hook" /\ ln.x = "before_signal"
@@ -638,7 +638,8 @@ KF(c, g, o, ln, o2, g2) ==
     [] c = "C02_complete" ->
          LET off == UNION { { p \in OwnedBy(g2, o2, o2.w[i].ln) : KSt(o2, p) # "reaped" } : i \in BecameStopped(o, o2) } IN
          IF (\A i \in BecameStopped(o, o2) : o2.w[i].pr = <<>>) /\ off # {}
-         THEN (IF \A p \in off : p \in g2.pruned /\ KSt(o2, p) = "zombie" THEN "D4"
+         THEN (IF \A p \in off : p \in g2.detached THEN "D3"
+               ELSE IF \A p \in off : p \in g2.pruned /\ KSt(o2, p) = "zombie" THEN "D4"
                ELSE IF \A p \in off : p \in g2.detached \/ (p \in g2.pruned /\ KSt(o2, p) = "zombie") THEN "D3" ELSE "")
          ELSE ""
     [] c = "C04_owned" ->
